@@ -160,6 +160,19 @@ def build_corpus(tier, rng):
         for j, (i, _, tag) in enumerate(vals):
             for sp in specs[:6]:
                 c.add_q(k, "display", [j, i] + sp, note="placeholder")
+    # the SAME variant identifiers in several enums of one crate under different styles (eight copies per style: one of each in every shard
+    # crate, in both orders): a name depends on the enum's own style, not on which enum was expanded first (seed C17_r16)
+    for sa, sb in ((None, "camelCase"), ("camelCase", None)):
+        for sty in [sa] * 8 + [sb] * 8:
+            it = Item("E", [Variant("RedApple", "unit"), Variant("GreenPear", "tuple", [Field("u8")]), Variant("Utf8Text", "named", [Field("u8", "f")])],
+                      metas=[EM("sall", sty)] if sty else [])
+            k = c.add_def(it, family="shared-identifiers", derives=["Display"])
+            vals = RR.sample_values(it)
+            c.meta[k]["vals"] = vals
+            for j, (i, _, tag) in enumerate(vals):
+                if tag != "default":
+                    for sp in specs[:3]:
+                        c.add_q(k, "display", [j, i] + sp, note="fixed")
     # (round 15) generic enums: a type parameter that needs no trait (only in PhantomData, also next to the field a placeholder names;
     # instantiated with a type that is not Display) and parameters with defaults
     for it in G.bound_free_items(with_placeholder=True) + G.defaulted_param_items():
